@@ -5,6 +5,10 @@
 package typechecker
 
 /*@
+// every function of this package without a contract is swept for implicit panics (type assertions, nil
+// dereferences, index expressions) that its own guards rule out
+sweep C03
+
 // a typechecker keeps working on the same module
 immutable typechecker.Typechecker.Module typechecker.Typechecker.panicMode ast.Module.Ast
 // the checker annotates expressions but never changes their operator or operands
